@@ -360,10 +360,20 @@ var repairs = []repair{
 		})
 	}},
 	{"print_parse_fixpoint:unary_not_fusion", func(p string, _ []parser.Token) string {
-		// UnaryLogic.String() writes "!" and the operand without a separator: "!" + "!x" (or "!" + ":name")
-		// scans as one operator token
+		// UnaryLogic.String() wrote "!" and an operand beginning with "!" without a separator: "!!x" scans as one
+		// operator token (repaired in 98baed3)
 		return rewriteTopLevel(p, func(rs []rune, i int) (string, int) {
-			if rs[i] == '!' && i+1 < len(rs) && (rs[i+1] == '!' || rs[i+1] == ':') {
+			if rs[i] == '!' && i+1 < len(rs) && rs[i+1] == '!' {
+				return "! ", 1
+			}
+			return "", 0
+		})
+	}},
+	{"print_parse_fixpoint:unary_not_placeholder_fusion", func(p string, _ []parser.Token) string {
+		// UnaryLogic.String() writes "!" and a named placeholder ":name" (prepared-statement mode) without a
+		// separator: "!:name" scans as the unrecognised operator "!:" followed by an identifier
+		return rewriteTopLevel(p, func(rs []rune, i int) (string, int) {
+			if rs[i] == '!' && i+1 < len(rs) && rs[i+1] == ':' {
 				return "! ", 1
 			}
 			return "", 0
